@@ -39,12 +39,14 @@ func genC27() *rapid.Generator[C27Scenario] {
 				s.Ops = append(s.Ops, C27Op{Op: "flush"})
 			}
 		}
+		mergeIdx := -1
 		if chance(t, "mergeable", 40) {
 			// two flushed files first and a Merge after them: the merge has a group
 			// to commit, so faults aimed at it reach the commit / cleanup paths
 			s.Ops = append([]C27Op{{Op: "ingest", Rows: 2}, {Op: "ingest", Rows: 1}}, s.Ops...)
 			at := 2 + unif(t, "mergeat", len(s.Ops)-1)
 			s.Ops = append(s.Ops[:at], append([]C27Op{{Op: "merge"}}, s.Ops[at:]...)...)
+			mergeIdx = at
 		}
 		for i := rapid.IntRange(0, 3).Draw(t, "nfaults"); i > 0; i-- {
 			f := C27Fault{Kind: pick(t, "fk", []string{"CreateFile", "Write", "Close", "Update", "Tombstone", "OpenFile", "Read", "RClose", "Seek", "IterYield", "Tombstone", "RClose"}), N: rapid.IntRange(0, 5).Draw(t, "fn"), Op: -1}
@@ -62,6 +64,35 @@ func genC27() *rapid.Generator[C27Scenario] {
 				}
 			}
 			s.Faults = append(s.Faults, f)
+		}
+		if chance(t, "doublefault", 45) {
+			// a failure and the failure of the cleanup it provokes, inside one
+			// operation: a merge whose commit fails and whose orphaned output
+			// cannot be tombstoned, a flush whose Close fails and whose abort /
+			// tombstone fails too
+			var ops []int
+			for i, o := range s.Ops {
+				if o.Op == "merge" || o.Op == "ingest" || o.Op == "flush" {
+					ops = append(ops, i)
+				}
+			}
+			if len(ops) > 0 {
+				at := ops[unif(t, "dfop", len(ops))]
+				if mergeIdx >= 0 && chance(t, "dfmerge", 70) {
+					at = mergeIdx // the Merge that certainly has a group to commit
+				}
+				first := pick(t, "dffirst", []string{"Update", "Update", "Close", "Write", "CreateFile"})
+				n := 0
+				if first == "CreateFile" || first == "Close" {
+					n = unif(t, "dfn", 2)
+				}
+				second := C27Fault{Kind: pick(t, "dfsecond", []string{"Tombstone", "Tombstone", "Abort"}), N: unif(t, "dfn2", 2), Op: at}
+				if at == mergeIdx && chance(t, "dfcommit", 50) {
+					// the merge commit is refused and so is the tombstone of its orphaned output
+					first, n, second = "Update", 0, C27Fault{Kind: "Tombstone", N: 0, Op: at}
+				}
+				s.Faults = append(s.Faults, C27Fault{Kind: first, N: n, Op: at}, second)
+			}
 		}
 		return s
 	})
